@@ -223,10 +223,16 @@ impl ObjectTransmissionInformation {
                     return kprime;
                 }
             }
-            unreachable!();
+            // No K' fits into the memory budget with n sub-blocks
+            0
         };
 
-        let num_source_blocks = int_div_ceil(kt as u64, kl(n_max) as u64);
+        let kl_max = kl(n_max);
+        assert!(
+            kl_max > 0,
+            "decoder_memory_requirement is too small for any source block size"
+        );
+        let num_source_blocks = int_div_ceil(kt as u64, kl_max as u64);
 
         let mut n = 1;
         for i in 1..=n_max {
